@@ -97,6 +97,8 @@ import sys
 sys.path.insert(0, os.path.dirname(os.path.abspath(__file__)))
 import manifest_entries  # noqa: E402
 CHECKS.update(manifest_entries.ENTRIES)
+for _pid, _more in manifest_entries.ADDENDA.items():
+    CHECKS[_pid] = dict(CHECKS[_pid], text=CHECKS[_pid]["text"] + " " + _more)
 
 PENDING = {}   # property id -> reason (kept honest while a check is being built)
 
